@@ -447,6 +447,11 @@ func (p *twkbParser) nextPolygon() (Polygon, error) {
 	if err != nil {
 		return Polygon{}, fmt.Errorf("num rings varint malformed: %w", err)
 	}
+	if numRings == 0 {
+		// NewPolygon gives a 2D Polygon when there are no rings, which would
+		// drag a whole MultiPolygon with Z or M values down to 2D.
+		return Polygon{}.ForceCoordinatesType(p.ctype), nil
+	}
 
 	var rings []LineString
 	for r := uint64(0); r < numRings; r++ {
